@@ -232,6 +232,13 @@ def job_inner(j):
             obs.append(rec)
             continue
         excluded = []
+        if ob.kind == 'unwind':
+            # unwinding assertion failed: the bound was too small to finish this path.
+            # Never a violation, never success: inconclusive.
+            rec.update(verdict='unknown', solver='unwind', time=0.0)
+            seen[key] = rec
+            obs.append(rec)
+            continue
         while True:
             r = solve.solve(list(ob.pc) + excluded, ob.neg, ob.nondet, inproc_ms=inproc_ms, ext_s=ext_s,
                             solvers=hc.get('solvers'), workdir=WORK, force_ext=hc.get('force_ext', False))
@@ -279,7 +286,7 @@ def job_inner(j):
                 reproduced = nat[0] is not None and nat[0][0] in ('fail', 'panic')
                 if ob.kind == 'panic':
                     reproduced = nat[0] is not None and nat[0][0] == 'panic'
-                if ob.kind in ('frame', 'unwind'):
+                if ob.kind == 'frame':
                     reproduced = True  # decided by the executor's own monitor
                 if reproduced:
                     confirmed[ckey] = True
